@@ -353,7 +353,9 @@ def _h3_witness():
         os.path.abspath(__file__)))), "regress", "known_findings", "H3.json")
     try:
         with open(p) as f:
-            return json.load(f)["case"]
+            c = json.load(f)["case"]
+        c["pinned"] = True          # (executed without the per-run configuration knobs)
+        return c
     except (OSError, ValueError, KeyError):
         return None
 
